@@ -6,11 +6,11 @@ ASSOC = {'none': 'associativity::no_assoc', 'ltor': 'associativity::ltor', 'rtol
 
 def cxx_str(s): return '"' + s.replace('\\', '\\\\').replace('"', '\\"') + '"'
 
-def grammar_cpp(g, lexer='tok', ctx=None, ns='g', limits=None, lexer_type=None):
+def grammar_cpp(g, lexer='tok', ctx=None, ns='g', limits=None, lexer_type=None, vt='unsigned'):
     """C++ definition of the grammar as a constexpr ctpg::parser named <ns>::p.
        lexer: 'tok' (custom token-level lexer over custom_terms)"""
     o = ['namespace %s {' % ns]
-    o.append('constexpr nterm<unsigned> %s;' % ', '.join('N_%d(%s)' % (i, cxx_str(n)) for i, n in enumerate(g.nterms)))
+    o.append('constexpr nterm<%s> %s;' % (vt, ', '.join('N_%d(%s)' % (i, cxx_str(n)) for i, n in enumerate(g.nterms))))
     for i, (n, prec, assoc) in enumerate(g.terms):
         tk = g.tkinds[i] if g.tkinds else None
         if tk is None:
@@ -39,9 +39,9 @@ def grammar_cpp(g, lexer='tok', ctx=None, ns='g', limits=None, lexer_type=None):
                     if tk is None: ps.append('const term_value<unsigned>& a%d' % k); args.append('a%d' % k)
                     elif tk['kind'] == 'char': ps.append('const term_value<char>& a%d' % k); args.append('hv::tv(%d, a%d)' % (ti, k))
                     else: ps.append('const term_value<std::string_view>& a%d' % k); args.append('hv::tv(%d, a%d)' % (ti, k))
-                else: ps.append('unsigned a%d' % k); args.append('a%d' % k)
+                else: ps.append('%s a%d' % (vt, k)); args.append('a%d' % k)
             if f == 'hash':
-                rs.append('%s >= [](%s){ return hv::red(%s); }' % (head, ', '.join(ps), ', '.join([str(ri)] + args)))
+                rs.append('%s >= [](%s){ return hv::%s(%s); }' % (head, ', '.join(ps), 'redt' if vt != 'unsigned' else 'red', ', '.join([str(ri)] + args)))
             else:
                 rs.append('%s >>= [](%s){ hv::ctx_touch(c); return hv::red(%s); }' % (head, ', '.join(['HV_CTX_PARAM c'] + ps), ', '.join([str(ri)] + args)))
         elif f == 'default': rs.append(head)
@@ -65,7 +65,7 @@ def parse_wrapper_cpp(g, ns='g', variant='plain', ctxkind=0):
             'hv::state hv::hv_S; const void* hv::hv_ctx_addr = nullptr; unsigned hv::hv_ctx_tag = 0; hv::lex_state hv::hv_L;\n')
     ctxp = {0: 'hv::ctx_t&', 1: 'const hv::ctx_t&', 2: 'hv::ctx_t', 3: 'hv::mo_ctx&&', 4: 'hv::ctx_t&'}[ctxkind]
     head += '#define HV_CTX_PARAM %s\n' % ctxp
-    head += grammar_cpp(g, ns=ns, lexer_type=lexer_type) + '\n'
+    head += grammar_cpp(g, ns=ns, lexer_type=lexer_type, vt=('hv::trk' if variant == 'trk' else 'unsigned')) + '\n'
     setup = ('    char b[LEN + 1];\n'
              '    for (int i = 0; i < LEN; i++) b[i] = (char)in[i];\n'
              '    b[LEN] = 0;\n'
@@ -84,7 +84,9 @@ def parse_wrapper_cpp(g, ns='g', variant='plain', ctxkind=0):
     alt = ('        out[O_ALT_OK] = r0.has_value() ? 1u : 0u; out[O_ALT_VALUE] = r0.has_value() ? *r0 : 0u; out[O_ALT_NRED] = hv::hv_S.nred;\n'
            '        hv::reset();\n')
     sig = 'const uint8_t* in, uint32_t opts, uint32_t* out'
-    if variant == 'plain':
+    if variant == 'trk':
+        body = setup + '    auto r = %s::p.parse(o, cstring_buffer<LEN + 1>(b), s);\n' % ns + fin.replace('*r : 0u', 'r->v : 0u') + '    if (r.has_value() && r->st != 1) out[O_FLAGS] |= 16u;\n    out[O_CTX] = hv::hv_S.moves;\n'
+    elif variant == 'plain':
         body = setup + '    auto r = %s::p.parse(o, cstring_buffer<LEN + 1>(b), s);\n' % ns + fin
     elif variant == 'hist':
         body = setup + ('    {   // an earlier call on the same parser object with another input (reversed, low bit flipped): successful, failing and recovering priors all occur\n'
